@@ -96,9 +96,6 @@ func SNPValidateFunc(opts *Options) func(*spb.Attestation, []byte) error {
 // SNPFamilyValidateFunc returns a validation function that can be used with go-sev-guest on an
 // SEV-SNP attestation report given an expected familyID.
 func SNPFamilyValidateFunc(familyID string, opts *Options) func(*spb.Attestation, []byte) error {
-	if opts.SNP == nil {
-		opts.SNP = &SNPOptions{}
-	}
 	return func(attestation *spb.Attestation, serializedEndorsement []byte) error {
 		if attestation == nil {
 			return fmt.Errorf("attestation is nil")
@@ -118,12 +115,20 @@ func SNPFamilyValidateFunc(familyID string, opts *Options) func(*spb.Attestation
 			serializedEndorsement = blob
 
 		}
-		opts.SNP.Measurement = measurement
-		// Prefer the endorsement provided by the caller.
-		if opts.Endorsement != nil {
-			return EndorsementProto(opts.Endorsement, opts)
+		// The returned function may be called repeatedly and concurrently, so the report's measurement
+		// is checked through a per-call copy of the options, never through the caller's shared value.
+		callOpts := *opts
+		snpOpts := SNPOptions{}
+		if opts.SNP != nil {
+			snpOpts = *opts.SNP
 		}
-		return Endorsement(serializedEndorsement, opts)
+		snpOpts.Measurement = measurement
+		callOpts.SNP = &snpOpts
+		// Prefer the endorsement provided by the caller.
+		if callOpts.Endorsement != nil {
+			return EndorsementProto(callOpts.Endorsement, &callOpts)
+		}
+		return Endorsement(serializedEndorsement, &callOpts)
 	}
 }
 
